@@ -40,6 +40,11 @@ func (a *Analysis) classifyErr(v ssa.Value) errClass {
 			g = a.canonSentinel(g)
 			return errClass{Kind: "sentinel", G: g, Desc: g.Name()}
 		}
+	case *ssa.Alloc:
+		// reached through a constructor (`return &T{…}` in newT, see the call case)
+		if c, ok := a.classifyAlloc(x); ok {
+			return c
+		}
 	case *ssa.MakeInterface:
 		// &T{…} of a module type whose only error-related method is Error: a fresh error value
 		// (pointer identity), matching nothing but itself
@@ -210,6 +215,37 @@ func varargsOf(c *ssa.Call) []ssa.Value {
 func (a *Analysis) sentinel(name string) *ssa.Global {
 	g, _ := a.P.Root.Members[name].(*ssa.Global)
 	return g
+}
+
+// classifyAlloc: &T{…} of a module type whose only error-related method is Error is a fresh
+// error value (pointer identity), matching nothing but itself; with an Is that compares one
+// field, see kindError.
+func (a *Analysis) classifyAlloc(al *ssa.Alloc) (errClass, bool) {
+	if !al.Heap {
+		return errClass{}, false
+	}
+	pt, ok := al.Type().Underlying().(*types.Pointer)
+	if !ok {
+		return errClass{}, false
+	}
+	n, ok := pt.Elem().(*types.Named)
+	if !ok || n.Obj().Pkg() == nil || a.P.Root == nil || n.Obj().Pkg() != a.P.Root.Pkg {
+		return errClass{}, false
+	}
+	ms := a.P.SSA.MethodSets.MethodSet(al.Type())
+	hasError, other := false, false
+	for i := 0; i < ms.Len(); i++ {
+		switch ms.At(i).Obj().Name() {
+		case "Error":
+			hasError = true
+		case "Is", "As", "Unwrap":
+			other = true
+		}
+	}
+	if hasError && !other {
+		return errClass{Kind: "fresh", Desc: "&" + n.Obj().Name() + "{…}"}, true
+	}
+	return a.kindError(al, n, ms)
 }
 
 // matches reports whether error value v certainly satisfies errors.Is(v, G).
@@ -571,13 +607,41 @@ func (a *Analysis) semanticPredicate(f *ssa.Function, bits int) *predSets {
 // semanticPredicateSlice: the same for f(table []int, x int) (either order) with the table fixed
 // to the given constants (nil: a one-argument predicate).
 func (a *Analysis) semanticPredicateSlice(f *ssa.Function, bits int, table []int64) *predSets {
+	return a.semanticPredicateGen(f, bits, table, nil)
+}
+
+// intCmp: "the helper's one integer result <op> C".
+type intCmp struct {
+	Op token.Token
+	C  int64
+}
+
+// semanticPredicateCmp classifies `f(x) <op> c` for a helper f(x int) int of the module (a size
+// helper that answers -1 for "not a valid size"): true where the comparison certainly holds.
+func (a *Analysis) semanticPredicateCmp(f *ssa.Function, bits int, op token.Token, c int64) *predSets {
+	return a.semanticPredicateGen(f, bits, nil, &intCmp{op, c})
+}
+
+// semanticPredicateFixed classifies a predicate with several integer parameters, all but one
+// of them fixed to the constants of one call site (`isSizeAccepted(n, 16, 32, 4)`).
+func (a *Analysis) semanticPredicateFixed(f *ssa.Function, bits int, fixed map[int]int64) *predSets {
+	a.predFixed = fixed
+	defer func() { a.predFixed = nil }()
+	return a.semanticPredicateGen(f, bits, nil, nil)
+}
+
+func (a *Analysis) semanticPredicateGen(f *ssa.Function, bits int, table []int64, cmp *intCmp) *predSets {
 	res := f.Signature.Results()
 	if res.Len() == 0 {
 		return nil
 	}
 	last := res.At(res.Len() - 1).Type()
 	isErr := isErrorType(last)
-	if bt, ok := last.Underlying().(*types.Basic); !isErr && (!ok || bt.Kind() != types.Bool) {
+	if cmp != nil {
+		if res.Len() != 1 || !isIntType(last) {
+			return nil
+		}
+	} else if bt, ok := last.Underlying().(*types.Basic); !isErr && (!ok || bt.Kind() != types.Bool) {
 		return nil
 	}
 	for fn := range a.reachableFrom(f) {
@@ -590,6 +654,14 @@ func (a *Analysis) semanticPredicateSlice(f *ssa.Function, bits int, table []int
 		lo, hi = math.MinInt32, math.MaxInt32
 	}
 	points := map[int64]bool{lo: true, hi: true, 0: true}
+	fixedP := map[*ssa.Parameter]int64{}
+	for i, c := range a.predFixed {
+		if i < len(f.Params) {
+			fixedP[f.Params[i]] = c
+		}
+		table = append(append([]int64{}, table...), c) // a boundary of the partition like any other constant
+	}
+	tableArg := table[:len(table)-len(a.predFixed)]
 	for _, c := range table {
 		if c >= lo && c <= hi {
 			points[c] = true
@@ -628,7 +700,10 @@ func (a *Analysis) semanticPredicateSlice(f *ssa.Function, bits int, table []int
 	sort.Slice(ps, func(i, j int) bool { return ps[i] < ps[j] })
 	out := &predSets{Relied: map[*ssa.Global]bool{}}
 	classify := func(ctx *Ctx, set ZSet) bool {
-		ctx.IntTable = table
+		ctx.IntTable = tableArg
+		if len(fixedP) > 0 {
+			ctx.ParamConst = fixedP
+		}
 		e := NewEval(a.P, a.G, ctx)
 		rv, _ := e.Run(f)
 		for gl := range e.Relied {
@@ -643,6 +718,37 @@ func (a *Analysis) semanticPredicateSlice(f *ssa.Function, bits int, table []int
 			return false
 		}
 		v := rv[len(rv)-1]
+		if cmp != nil {
+			iv, ok := v.(IntV)
+			if !ok {
+				return false
+			}
+			lo, hi, okb := iv.Bounds(0)
+			if !okb {
+				return false
+			}
+			all, none := true, true
+			for _, p := range []int64{lo, hi} {
+				if cmpHolds(p, cmp.Op, cmp.C) {
+					none = false
+				} else {
+					all = false
+				}
+			}
+			// between the bounds the answer can only change at C itself
+			if lo < cmp.C && cmp.C < hi {
+				all, none = false, false
+			}
+			switch {
+			case all:
+				out.T = out.T.Union(set)
+			case none:
+				out.F = out.F.Union(set)
+			default:
+				return false
+			}
+			return true
+		}
 		if isErr {
 			ev := asErr(v)
 			switch {
@@ -705,6 +811,8 @@ func (a *Analysis) ruleGates() {
 	semPredMu.Lock()
 	semPredByProg[a.P.SSA] = a.semanticPredicate
 	semPredSliceByProg[a.P.SSA] = a.semanticPredicateSlice
+	semPredCmpByProg[a.P.SSA] = a.semanticPredicateCmp
+	semPredFixedByProg[a.P.SSA] = a.semanticPredicateFixed
 	semPredMu.Unlock()
 	bits := a.P.Cfg.IntBits()
 	maxInt := int64(math.MaxInt64)
